@@ -103,6 +103,17 @@ func jsonOf(n *Node, v Val, keyOf func(Field) string, sb *strings.Builder) error
 				}
 			}
 			if fld == nil {
+				// a key the schema does not know: passed through unchanged
+				if !first {
+					sb.WriteByte(',')
+				}
+				first = false
+				kb, _ := json.Marshal(kv.K)
+				sb.Write(kb)
+				sb.WriteByte(':')
+				if err := jsonOfLoose(kv.V, sb); err != nil {
+					return err
+				}
 				continue
 			}
 			if !first {
@@ -168,9 +179,16 @@ func rekey(n *Node, v Val, keyOf func(Field) string) any {
 	case n.Kind == KStruct && v.T == "map":
 		out := map[string]any{}
 		for _, kv := range v.M {
+			known := false
 			for i := range n.Fields {
 				if n.Fields[i].Key == kv.K {
 					out[keyOf(n.Fields[i])] = rekey(n.Fields[i].Node, kv.V, keyOf)
+					known = true
+				}
+			}
+			if !known {
+				if _, taken := out[kv.K]; !taken {
+					out[kv.K] = kv.V.Go() // unknown key: passed through
 				}
 			}
 		}
@@ -199,6 +217,16 @@ func flatPairs(n *Node, v Val, keyOf func(Field) string, out url.Values, order *
 		return fmt.Errorf("key %q is used twice in the flat namespace", dup)
 	}
 	for _, kv := range v.M {
+		known := false
+		for i := range n.Fields {
+			known = known || n.Fields[i].Key == kv.K
+		}
+		if !known {
+			if s, ok := scalarString(kv.V); ok && kv.K != "" {
+				out.Add(kv.K, s) // unknown parameter: passed through
+			}
+			continue
+		}
 		for i := range n.Fields {
 			f := n.Fields[i]
 			if f.Key != kv.K {
